@@ -439,15 +439,26 @@ mod wr {
         }]
     }
     pub fn server_dec_comb() -> Vec<DecOps<ServerCrypto>> {
-        vec![DecOps {
-            name: "wrath_header/server-combined/client-header".into(),
-            typed: Box::new(|s, b| { let h = s.decrypt_client_header(arr::<6>(b)); (h.size as u32, h.opcode) }),
-            read: Box::new(|s, r| s.read_and_decrypt_client_header(r).map(|h| (h.size as u32, h.opcode))),
-            raw: Box::new(|s, d| s.decrypt(d)),
-            kind: Kind::Client6,
-            attempt4: None,
-            complete5: None,
-        }]
+        vec![
+            DecOps {
+                name: "wrath_header/server-combined/client-header".into(),
+                typed: Box::new(|s, b| { let h = s.decrypt_client_header(arr::<6>(b)); (h.size as u32, h.opcode) }),
+                read: Box::new(|s, r| s.read_and_decrypt_client_header(r).map(|h| (h.size as u32, h.opcode))),
+                raw: Box::new(|s, d| s.decrypt(d)),
+                kind: Kind::Client6,
+                attempt4: None,
+                complete5: None,
+            },
+            DecOps {
+                name: "wrath_header/server-combined-via-decrypter()/client-header".into(),
+                typed: Box::new(|s, b| { let h = s.decrypter().decrypt_client_header(arr::<6>(b)); (h.size as u32, h.opcode) }),
+                read: Box::new(|s, r| s.decrypter().read_and_decrypt_client_header(r).map(|h| (h.size as u32, h.opcode))),
+                raw: Box::new(|s, d| s.decrypter().decrypt(d)),
+                kind: Kind::Client6,
+                attempt4: None,
+                complete5: None,
+            },
+        ]
     }
     pub fn client_enc_half() -> Vec<EncOps<ClientEncrypterHalf>> {
         vec![EncOps {
@@ -459,13 +470,22 @@ mod wr {
         }]
     }
     pub fn client_enc_comb() -> Vec<EncOps<ClientCrypto>> {
-        vec![EncOps {
-            name: "wrath_header/client-combined/client-header".into(),
-            typed: Box::new(|s, sz, op| s.encrypt_client_header(sz as u16, op).to_vec()),
-            write: Box::new(|s, w, sz, op| s.write_encrypted_client_header(w, sz as u16, op)),
-            raw: Box::new(|s, d| s.encrypt(d)),
-            kind: Kind::Client6,
-        }]
+        vec![
+            EncOps {
+                name: "wrath_header/client-combined/client-header".into(),
+                typed: Box::new(|s, sz, op| s.encrypt_client_header(sz as u16, op).to_vec()),
+                write: Box::new(|s, w, sz, op| s.write_encrypted_client_header(w, sz as u16, op)),
+                raw: Box::new(|s, d| s.encrypt(d)),
+                kind: Kind::Client6,
+            },
+            EncOps {
+                name: "wrath_header/client-combined-via-encrypter()/client-header".into(),
+                typed: Box::new(|s, sz, op| s.encrypter().encrypt_client_header(sz as u16, op).to_vec()),
+                write: Box::new(|s, w, sz, op| s.encrypter().write_encrypted_client_header(w, sz as u16, op)),
+                raw: Box::new(|s, d| s.encrypter().encrypt(d)),
+                kind: Kind::Client6,
+            },
+        ]
     }
     pub fn server_enc_half() -> Vec<EncOps<ServerEncrypterHalf>> {
         vec![EncOps {
@@ -477,13 +497,22 @@ mod wr {
         }]
     }
     pub fn server_enc_comb() -> Vec<EncOps<ServerCrypto>> {
-        vec![EncOps {
-            name: "wrath_header/server-combined/server-header".into(),
-            typed: Box::new(|s, sz, op| s.encrypt_server_header(sz, op as u16).to_vec()),
-            write: Box::new(|s, w, sz, op| s.write_encrypted_server_header(w, sz, op as u16)),
-            raw: Box::new(|s, d| s.encrypt(d)),
-            kind: Kind::WrathServer,
-        }]
+        vec![
+            EncOps {
+                name: "wrath_header/server-combined/server-header".into(),
+                typed: Box::new(|s, sz, op| s.encrypt_server_header(sz, op as u16).to_vec()),
+                write: Box::new(|s, w, sz, op| s.write_encrypted_server_header(w, sz, op as u16)),
+                raw: Box::new(|s, d| s.encrypt(d)),
+                kind: Kind::WrathServer,
+            },
+            EncOps {
+                name: "wrath_header/server-combined-via-encrypter()/server-header".into(),
+                typed: Box::new(|s, sz, op| s.encrypter().encrypt_server_header(sz, op as u16).to_vec()),
+                write: Box::new(|s, w, sz, op| s.encrypter().write_encrypted_server_header(w, sz, op as u16)),
+                raw: Box::new(|s, d| s.encrypter().encrypt(d)),
+                kind: Kind::WrathServer,
+            },
+        ]
     }
 }
 
